@@ -16,9 +16,11 @@ Init == l = 1 /\ bad = {} /\ cnt = [c \in {} |-> 0]
 Bump(f, S) == [c \in DOMAIN f \cup S |-> (IF c \in DOMAIN f THEN f[c] ELSE 0) + (IF c \in S THEN 1 ELSE 0)]
 
 Step == /\ l <= Len(Trace)
+        \* a record of kind "exception" reports that the implementation raised on a case the spec issued:
+        \* the public API must return a value on every valid case (clause NoException, always failing)
         /\ LET r == Trace[l]
-               A == Applicable(r)
-               F == Failing(r) IN
+               A == IF "kind" \in DOMAIN r /\ r.kind = "exception" THEN {"NoException"} ELSE Applicable(r)
+               F == IF "kind" \in DOMAIN r /\ r.kind = "exception" THEN {"NoException"} ELSE Failing(r) IN
              /\ bad' = bad \cup {<<r.id, c>> : c \in F \cap A}
              /\ cnt' = Bump(cnt, A)
         /\ l' = l + 1
